@@ -182,6 +182,28 @@ let () =
                 if res <> "ok:" ^ vstr then oracle "UNKNOWNSKIP" (Printf.sprintf "%s got=%s" tag res)
               end else bump "ins-nonwf"
             end
+        | "HR" :: fn :: rd :: segs :: res :: _ ->
+            (* hand-written decoders that have a model: outcome must agree *)
+            let ss = segs_of_string segs in
+            let flat = List.concat ss in
+            let ok_of = function true -> "ok" | false -> "err" in
+            let m =
+              match fn with
+              | "NameFromBytes" -> (match name_from_bytes flat with Ok _ -> "ok" | Err _ -> "err" | Panic _ -> "panic")
+              | "ComponentFromBytes" -> (match comp_from_bytes flat with Ok _ -> "ok" | Err _ -> "err" | Panic _ -> "panic")
+              | "ParseNat" -> ok_of (parse_nat flat <> None)
+              | "ReadName" ->
+                  let r = if rd = "B" then
+                            (match b_read_name (br_of flat) with HOk (_, _) -> "ok" | HEof _ | HErr _ -> "err" | HPanic _ -> "panic" | HFuel -> "fuel")
+                          else
+                            (match w_read_name (PW { wsegs = ss; wseg = O; wpos = O }) with HOk (_, _) -> "ok" | HEof _ | HErr _ -> "err" | HPanic _ -> "panic" | HFuel -> "fuel") in
+                  r
+              | _ -> "" in
+            if m <> "" then begin
+              bump ("H:" ^ fn);
+              let r = (match String.index_opt res ':' with Some i -> String.sub res 0 i | None -> res) in
+              if m <> r then diverge ("HAND:" ^ fn) m r
+            end
         | [""] | [] -> ()
         | _ -> Printf.printf "BADLINE %d %s\n" !lineno (String.sub line 0 (min 100 (String.length line)))
       with Bad s -> Printf.printf "BADLINE %d %s\n" !lineno s
